@@ -23,7 +23,7 @@ def make_group(g, max_nodes, extra=None):
         hpcc = HpcConfig(hpc_type="local", job_prefix=g["name"], hpc={})
     else:
         hpcc = HpcConfig(hpc_type="slurm", job_prefix=g["name"],
-                         hpc={"account": "acct", "walltime": "%d:%02d:00" % (wall // 60, wall % 60)})
+                         hpc={"account": "acct", "walltime": "%d:%02d:%02d" % (wall // 60, wall % 60, g.get("wall_sec", 0))})
     kw = dict(hpc_config=hpcc, per_node_batch_size=g.get("size", 500), max_nodes=max_nodes,
               time_based_batching=bool(g.get("time")), try_add_blocked_jobs=bool(g.get("try", True)),
               dry_run=bool(g.get("dry")), distributed_submitter=bool(g.get("distributed", True)),
@@ -176,4 +176,4 @@ class Workdir:
 
 def group_limit_seconds(g):
     """wall * nproc in seconds (what _BatchJobs computes for time-based batching)"""
-    return g.get("wall_min", 60) * 60 * (g.get("nproc") or 1)
+    return (g.get("wall_min", 60) * 60 + g.get("wall_sec", 0)) * (g.get("nproc") or 1)
